@@ -22,6 +22,9 @@ ObsOK(e) ==
            /\ o.seq = seq'[r]
            /\ alloc'[r] => o.max = max'[r]
            /\ seq'[r] # <<>> => (o.front = seq'[r][1] /\ o.back = seq'[r][Len(seq'[r])])
+           /\ o.seq_c = seq'[r]                                   \* const overloads
+           /\ seq'[r] # <<>> => (o.front_c = seq'[r][1] /\ o.back_c = seq'[r][Len(seq'[r])])
+           /\ alloc'[r] => o.cap > max'[r]                        \* room for max_size() elements and the free slot that tells full from empty
     /\ HasField(e, "live") => BagOfSeq(e.live) = LiveBag'
     /\ HasField(e, "blocks") => e.blocks = Cardinality({r \in Slots : alloc'[r]})
     /\ e.lerr = 0
